@@ -181,8 +181,16 @@ def run_retry(case):
                         sessions[-1][1] = t_err
                 elif kind == 'reopen' and not link_open and not any(e.get('reopen_in_cb') for e in case['events']):
                     net.fault = None
+                    if arg.get('send_raises'):
+                        # the very first transmission of the new link fails in the caller's face: the attempt is over at once
+                        net.fault = {'k': 0, 'reporter': 'raise', 'session': len(env.world.links)}
+                        env.world.fault_fired = False
                     cf.open_link('sim://1')
-                    sessions.append([s.now, None])
+                    sessions.append([s.now, s.now if arg.get('send_raises') else None])
+                    if arg.get('send_raises'):
+                        net.fault = None
+                        if cf.link is not None:
+                            out.fail('retry:link-kept-after-failed-open', 'open_link failed (transport error on the first send) but Crazyflie.link is still set')
             s.sleep(case['tail'])
             t_end = s.now
             if cf.link is not None:
@@ -354,7 +362,8 @@ def retry_case(draw):
             reqs.append({'t': tc, 'port': port, 'channel': channel, 'data': [8, 0x60, i], 'expected': [8], 'timeout': draw(st.sampled_from([0.2, 1.0])),
                          'reply': None, 'thread': True})
         if mode.endswith('reopen'):
-            events.append({'t': tc + draw(st.sampled_from([0.0, 0.01, 0.05, 0.15, 0.25, 0.9])), 'kind': 'reopen'})
+            events.append({'t': tc + draw(st.sampled_from([0.0, 0.01, 0.05, 0.15, 0.25, 0.9])), 'kind': 'reopen',
+                           'send_raises': draw(st.sampled_from([False, False, False, True]))})
             if draw(st.booleans()):
                 i = len(reqs)
                 withexp = [r for r in reqs if r['expected'] and not r.get('thread') and r['t'] < tc]
